@@ -101,6 +101,10 @@ MUTATIONS = [
     ('t-strict-compare', 'C19', TL, "        while self.timeline and time >= self.timeline[0][0]:", "        while self.timeline and time > self.timeline[0][0]:"),
     ('t-unsorted', 'C19', TL, "        self.timeline = sorted(merged.items(), key=lambda event: event[0])", "        self.timeline = list(merged.items())"),
     ('t-earlier-event-wins', 'C19', TL, "                update = deep_merge(update, update_at_path)", "                update = deep_merge(update_at_path, update)"),
+    ('t-merge-aliases-caller', 'C19', TL, "            merged.setdefault(time, {}).update(change)", "            if time in merged:\n                merged[time].update(change)\n            else:\n                merged[time] = change"),
+    # round 8
+    ('k-deferred-timestep-kept', 'C02', E, "                    process_timestep = self.front[path].pop('timestep', None)", "                    process_timestep = self.front[path].get('timestep')"),
+    ('c-initial-state-aliases-process', 'C15', C, "            process_state = copy.deepcopy(process_state)\n", ""),
     # composites
     ('c-merge-no-copy', 'C16', C, "                deep_copy_internal(composite['processes']))", "                composite['processes'])"),
     ('c-merge-ignores-path', 'C16', C, "        merge_processes = assoc_in({}, path, merge_processes)\n", ""),
